@@ -283,17 +283,12 @@ func replayObligation(ctx *Context, r *OblResult, outDir string) (confirmed bool
 	if len(resNames) > 0 {
 		assign = strings.Join(resNames, ", ") + " := "
 	}
-	// contract evaluation: the lowered postcondition with parameters bound by name
-	check := "true"
-	what := r.ob.Kind
-	if r.ob.Post != "" {
-		sp := ctx.pkgs[fr.fc.PkgPath]
-		post := sp.Func(r.ob.Post)
-		var pf postFn
-		for _, p := range fr.fc.posts {
-			if p.name == r.ob.Post {
-				pf = p
-			}
+	// contract evaluation: lowered postconditions with parameters bound by name
+	sp := ctx.pkgs[fr.fc.PkgPath]
+	postExpr := func(pf postFn) (string, bool) {
+		post := sp.Func(pf.name)
+		if post == nil {
+			return "", false
 		}
 		rn := resultNames(sig)
 		var cargs []string
@@ -323,19 +318,33 @@ func replayObligation(ctx *Context, r *OblResult, outDir string) (confirmed bool
 						}
 					}
 				}
-				fmt.Fprintf(&decls, "\t%s := %s(%s)\n", p.Name(), pf.olds[k], strings.Join(oargs, ", "))
-				cargs = append(cargs, p.Name())
+				vn := fmt.Sprintf("%s_%s", p.Name(), safeName(pf.label))
+				fmt.Fprintf(&decls, "\t%s := %s(%s)\n", vn, pf.olds[k], strings.Join(oargs, ", "))
+				cargs = append(cargs, vn)
 				bound = true
 			}
 			if !bound {
-				return false, "postcondition parameter " + p.Name() + " cannot be bound in a replay"
+				return "", false
 			}
 		}
-		check = fmt.Sprintf("%s(%s)", r.ob.Post, strings.Join(cargs, ", "))
+		return fmt.Sprintf("%s(%s)", pf.name, strings.Join(cargs, ", ")), true
+	}
+	var checks []string
+	for _, pf := range fr.fc.posts {
+		if r.ob.Kind == "ensures" && pf.name != r.ob.Post {
+			continue
+		}
+		ex, ok := postExpr(pf)
+		if !ok {
+			if r.ob.Kind == "ensures" {
+				return false, "postcondition " + pf.name + " cannot be bound in a replay"
+			}
+			continue
+		}
+		checks = append(checks, fmt.Sprintf("\tif !%s {\n\t\tt.Fatalf(\"REPLAY-CONFIRMED: contract clause %s violated by the real code; results: %%v\", []any{%s})\n\t}\n", ex, pf.label, strings.Join(resNames, ", ")))
 	}
 	pre := ""
 	if fr.fc.hasPre {
-		sp := ctx.pkgs[fr.fc.PkgPath]
 		pf := sp.Func(fr.fc.preFunc())
 		var cargs []string
 		for _, p := range pf.Params {
@@ -349,21 +358,17 @@ func replayObligation(ctx *Context, r *OblResult, outDir string) (confirmed bool
 			pre = fmt.Sprintf("\tif !%s(%s) {\n\t\tt.Skip(\"REPLAY-PRECONDITION-NOT-MET\")\n\t}\n", fr.fc.preFunc(), strings.Join(cargs, ", "))
 		}
 	}
-	body := ""
-	switch r.ob.Kind {
-	case "ensures":
-		body = fmt.Sprintf("%s\t%s%s\n\tif !%s {\n\t\tt.Fatalf(\"REPLAY-CONFIRMED: contract clause violated by the real code; results: %%v\", []any{%s})\n\t}\n\tt.Logf(\"REPLAY-NOT-CONFIRMED\")\n",
-			pre, assign, call, check, strings.Join(resNames, ", "))
-	default:
-		// safety obligation: a panic of the real code confirms bounds / nil / explicit panic; overflow is confirmed
-		// when the real code, run on the model's inputs, violates any postcondition or panics
-		under := ""
-		if len(resNames) > 0 {
-			under = strings.Repeat("_, ", len(resNames)-1) + "_ = "
-		}
-		body = fmt.Sprintf("%s\tdefer func() {\n\t\tif x := recover(); x != nil {\n\t\t\tt.Fatalf(\"REPLAY-CONFIRMED: real code panics: %%v\", x)\n\t\t}\n\t}()\n\t%s%s\n\tt.Logf(\"REPLAY-NOT-CONFIRMED\")\n", pre, under, call)
-		_ = what
+	// a panic of the real code confirms bounds / nil / explicit-panic obligations; an overflow obligation is confirmed
+	// when the real code, run on the model's inputs, panics or violates one of the function's postconditions
+	body := pre
+	if r.ob.Kind != "ensures" {
+		body += "\tdefer func() {\n\t\tif x := recover(); x != nil {\n\t\t\tt.Fatalf(\"REPLAY-CONFIRMED: real code panics: %v\", x)\n\t\t}\n\t}()\n"
 	}
+	body += "\t" + assign + call + "\n"
+	for _, rn := range resNames {
+		body += "\t_ = " + rn + "\n"
+	}
+	body += strings.Join(checks, "") + "\tt.Logf(\"REPLAY-NOT-CONFIRMED\")\n"
 	var imp strings.Builder
 	// imports needed by the rendered literals
 	for p, n := range rd.imps {
